@@ -13,3 +13,52 @@ Proof. exact numbers_stream. Qed.
 
 Check C04_stop_durable.
 Print Assumptions C04_stop_durable.
+
+(* ------------------------------------------------------------------ the asynchronous mode *)
+(* C04 - flush, shutdown and handle drop leave no accepted record behind: flush in every mode, drop in the
+   asynchronous mode (the synchronous drop is C04_stop_durable).  Statements only (proofs: Flw/NumAsync.v).
+   Asynchronous mode: "after the flush" means after the writer thread has consumed the flush message; in the model
+   and in the test harness that is before the next operation starts (scheduling assumption) - flush() itself gives
+   the caller no acknowledgement. *)
+Require Import FL.Base.Bytes FL.Fs.Fs FL.Names.FileSpec FL.Flw.Model FL.Flw.Run FL.Flw.NumInv FL.Flw.NumRun
+  FL.Oracles.O_Flw FL.Flw.NumTheorems FL.Flw.NumAsync.
+
+Theorem C04_flush_durable_async :
+  forall c crit t0 off ops,
+    numacfg c crit -> Forall basic_op ops ->
+    let x := fst (run (sys0 t0 off) (OStart c :: ops ++ [OFlush])) in
+    exists files, reads c (wfs (s_w x)) files /\ concat files = written ops
+      /\ pending x = [] /\ s_dead x = false
+      /\ (forall m, crit = CSize m -> files = expected_files m None (items false ops)).
+Proof. exact async_flush_durable. Qed.
+
+Theorem C04_stop_durable_async :
+  forall c crit t0 off ops,
+    numacfg c crit -> Forall basic_op ops ->
+    let x := fst (run (sys0 t0 off) (OStart c :: ops ++ [OStop])) in
+    exists files, reads c (wfs (s_w x)) files /\ concat files = written ops
+      /\ pending x = [] /\ s_flw x = None /\ s_dead x = true
+      /\ (forall m, crit = CSize m -> files = expected_files m None (items false ops)).
+Proof. exact async_stop_durable. Qed.
+
+(* Direct and buffered mode: after a flush the directory holds every byte written so far *)
+Theorem C04_flush_durable_sync :
+  forall c crit t0 off ops,
+    numcfg c crit -> Forall basic_op ops ->
+    let x := fst (run (sys0 t0 off) (OStart c :: ops ++ [OFlush])) in
+    exists files, reads c (wfs (s_w x)) files /\ concat files = written ops
+      /\ pending x = []
+      /\ (forall m, crit = CSize m -> files = expected_files m None (items false ops)).
+Proof. exact sync_flush_durable. Qed.
+
+(* limit: after shutdown() without drop an asynchronous writer accepts log calls (Ok) and loses the records *)
+Theorem C04_async_dead_write_lost :
+  forall x s b, s_flw x = Some s -> c_async (f_cfg s) = true -> s_dead x = true ->
+    s_w (fst (step x (OWrite b))) = s_w x /\ snd (step x (OWrite b)) = ObsRes 0%N false.
+Proof. exact async_dead_write_lost. Qed.
+
+Check C04_flush_durable_async. Check C04_stop_durable_async. Check C04_flush_durable_sync. Check C04_async_dead_write_lost.
+Print Assumptions C04_flush_durable_async.
+Print Assumptions C04_stop_durable_async.
+Print Assumptions C04_flush_durable_sync.
+Print Assumptions C04_async_dead_write_lost.
